@@ -85,7 +85,8 @@ PROPS["C09"] = {
     "level": "exploration",
     "runs": [run("TestC09", (12000, 8), (250000, 16))],
     "rule": "cases = scoring rule sets (2..7 rules in any phase; targets matching 0..k request values; setvar +N/-N/+%{tx.w}, assignments, "
-            "deletions, flag form, keys built from %{rule.id} and %{MATCHED_VAR_NAME}; severity; msg/logdata macros; chains; multiMatch; "
+            "deletions, flag form, keys built from %{rule.id} and %{MATCHED_VAR_NAME}; severity; msg/logdata macros; chains; multiMatch with "
+            "transformations that may return their input (length, urlDecode, hexEncode), match data compared as multisets; "
             "threshold rules on TX:score / TX:acc) x requests with repeated and case-variant argument names; oracle = reference evaluator "
             "(final TX map, fired ids, match data, interruption, HIGHEST_SEVERITY, message expansion) and the accounting identity "
             "tx.acc == sum(increment x observed matches); non-trivial = some rule carrying actions matched >= 2 values; distinct = distinct encodings",
